@@ -625,7 +625,8 @@ def gcirc(ra1deg, dec1deg, ra2deg, dec2deg, getangle=False):
     cosdis.clip(-1.0, 1.0, out=cosdis)
     dis = arccos(cosdis)
 
-    (w,) = np.where((ra1 == ra2) & (dec1 == dec2))
+    # boolean mask rather than np.where: works for any number of dimensions
+    w = (ra1 == ra2) & (dec1 == dec2)
     dis[w] = 0.0
 
     if getangle:
